@@ -13,7 +13,7 @@ import (
 	"verif/harness/internal/simkit"
 )
 
-const commonRule = "One case = a fresh real NFSv4.0 program (NewNFS40Program + OpenedFilesPool + NFS handle allocator + InMemoryPrepopulatedDirectory with pool-backed files wrapped by counting leaves) inside testing/synctest with a simulated clock and a counter-based random number generator. 1-3 protocol-following client simulators (client IDs, seqids, state IDs, file handles learned from replies only) issue generated COMPOUNDs: SETCLIENTID(+new verifier), SETCLIENTID_CONFIRM, RENEW, OPEN (CLAIM_NULL; nocreate/UNCHECKED/GUARDED/EXCLUSIVE; read/write/both; deny), OPEN_CONFIRM, OPEN_DOWNGRADE, CLOSE, LOCK (new / existing lock-owner), LOCKT, LOCKU, RELEASE_LOCKOWNER, READ/WRITE/SETATTR(size) with open, lock and special state IDs, REMOVE, LOOKUP, PUTFH; clock advances (also exactly at / 1ns past the lease), vanishing clients, drawn deviations (old/future/foreign/other-file/dead/wrong-prefix/special state IDs, wrong or missing file handle, old/future seqids, stale/foreign/unconfirmed client IDs, bad ranges), retransmissions (identical, other operation, other state ID; also of a request that is still parked, any number of identical ones waiting behind it), and requests parked inside VirtualOpenChild (before/after the directory) or leaf I/O while other requests, lease expiry, re-registration and duplicates arrive. All clients use the same open-owner / lock-owner byte strings; every owner's seqid sequence starts at a drawn value (0, 1, 2, or 2^32-3..2^32-1, so that it wraps around within the case). OPEN and READ/WRITE/SETATTR may carry a one-shot fault of the file system below the server (VirtualOpenChild fails before or after the real directory acted, file allocator fails, VirtualOpenSelf fails, leaf I/O fails). An oracle of any of the properties C14/C18/C19/C20 is fatal in every test function (the message names its property). A reference model (RFC 7530 state machine + per-byte lock table, fed only by requests, replies and the clock) predicts every reply status and the blocking behaviour. "
+const commonRule = "One case = a fresh real NFSv4.0 program (NewNFS40Program + OpenedFilesPool + NFS handle allocator + InMemoryPrepopulatedDirectory with pool-backed files wrapped by counting leaves) inside testing/synctest with a simulated clock and a counter-based random number generator. 1-3 protocol-following client simulators (client IDs, seqids, state IDs, file handles learned from replies only) issue generated COMPOUNDs: SETCLIENTID(+new verifier), SETCLIENTID_CONFIRM, RENEW, OPEN (CLAIM_NULL; nocreate/UNCHECKED/GUARDED/EXCLUSIVE; read/write/both; deny), OPEN_CONFIRM, OPEN_DOWNGRADE, CLOSE, LOCK (new / existing lock-owner), LOCKT, LOCKU, RELEASE_LOCKOWNER, READ/WRITE/SETATTR(size) with open, lock and special state IDs, REMOVE, LOOKUP, PUTFH; clock advances (also exactly at / 1ns past the lease), vanishing clients, drawn deviations (old/future/foreign/other-file/dead/wrong-prefix/special state IDs, wrong or missing file handle, old/future seqids, stale/foreign/unconfirmed client IDs, bad ranges), retransmissions (identical, other operation, other state ID; also of a request that is still parked, any number of identical ones waiting behind it), and requests parked inside VirtualOpenChild (before/after the directory) or leaf I/O while other requests, lease expiry, re-registration and duplicates arrive. TIME AROUND A PARKED OPEN (window.go): a generated 'window' action parks an OPEN (preferably of an open-owner that is unconfirmed or without open files), lets drawn time pass while it is parked (none / less than a lease / exactly a lease / a lease + 1ns / more), issues 0-2 further requests of the same open-owner that wait behind it (identical retransmissions, the owner's next OPEN / CLOSE / OPEN_DOWNGRADE / OPEN_CONFIRM with the following seqids), holds drawn ones of them - by the harness's clock, inside the Now() call at the top of enter() - when the OPEN completes and they wake up, then lets drawn time pass again (same classes; the client renewing in between with RENEW or a request of another open-owner, staying silent, or re-registering), lets the held waiters go in a drawn order, and sends OPEN_CONFIRM; the generic release action picks held waiters too; waiters that are not identical retransmissions of one request are always held, so the order of service is the harness's. The model restarts a request that waited from its lookups and forgets unused open-owners (unconfirmed or without open files, no transaction in progress) a lease after their last transaction completed, as nfs40_program.go documents. All clients use the same open-owner / lock-owner byte strings; every owner's seqid sequence starts at a drawn value (0, 1, 2, or 2^32-3..2^32-1, so that it wraps around within the case). OPEN and READ/WRITE/SETATTR may carry a one-shot fault of the file system below the server (VirtualOpenChild fails before or after the real directory acted, file allocator fails, VirtualOpenSelf fails, leaf I/O fails). An oracle of any of the properties C14/C18/C19/C20 is fatal in every test function (the message names its property). A reference model (RFC 7530 state machine + per-byte lock table, fed only by requests, replies and the clock) predicts every reply status and the blocking behaviour. "
 
 func labelsOf(w *world) []string {
 	set := map[string]bool{}
@@ -180,9 +180,9 @@ var profC18 = &profile{
 	ops: weights(map[string]int{
 		kOpen: 9, kOpenConfirm: 5, kOpenDowngrade: 5, kClose: 3, kLock: 9, kLocku: 1, kLockt: 1, kReleaseLockowner: 2,
 		kRead: 3, kWrite: 3, kSetattr: 1, kRemove: 2, kLookup: 1, kPutfh: 3,
-		kSetclientid: 3, kSetclientidConfirm: 4, kRenew: 1, "advance": 4, "vanish": 1, "release": 6, "retx": 1,
+		kSetclientid: 3, kSetclientidConfirm: 4, kRenew: 1, "advance": 4, "vanish": 1, "release": 6, "retx": 1, "window": 4,
 	}),
-	minSteps: 30, maxSteps: 100, devPct: 10, parkPct: 15, warmPct: 90, confirmPct: 85, sharedLO: true, faultPct: 12,
+	minSteps: 30, maxSteps: 100, devPct: 10, parkPct: 15, warmPct: 90, confirmPct: 85, sharedLO: true, faultPct: 12, gatePct: 40,
 	nontrivial: func(ev, labels map[string]int) bool {
 		return (ev["open_upgrade"] > 0 || ev["downgrade"] > 0) && ev["lock_owner_cloned_share"] > 0 && (ev["reclaim_by_expiry"] > 0 || ev["reclaim_by_reregistration"] > 0)
 	},
@@ -194,9 +194,9 @@ var profC19 = &profile{
 		kOpen: 8, kOpenConfirm: 6, kOpenDowngrade: 2, kClose: 5, kLock: 6, kLocku: 3, kReleaseLockowner: 1,
 		kRead: 1, kWrite: 1, kRemove: 1, kPutfh: 1,
 		kSetclientid: 1, kSetclientidConfirm: 2, kRenew: 1, "advance": 2, "release": 14,
-		"retx": 10, "retx_diff_op": 3, "retx_diff_sid": 3,
+		"retx": 10, "retx_diff_op": 3, "retx_diff_sid": 3, "window": 4,
 	}),
-	minSteps: 15, maxSteps: 60, devPct: 10, parkPct: 30, warmPct: 90, confirmPct: 85, sharedLO: true, inflightRetxPct: 70, dupParkedPct: 35,
+	minSteps: 15, maxSteps: 60, devPct: 10, parkPct: 30, warmPct: 90, confirmPct: 85, sharedLO: true, inflightRetxPct: 70, dupParkedPct: 35, gatePct: 30,
 	nontrivial: func(ev, labels map[string]int) bool {
 		return (ev["replay_ok_open"] > 0 || ev["replay_ok_close"] > 0 || ev["replay_ok_lock"] > 0) && labels["inflight_duplicate_got_original_reply"] > 0
 	},
@@ -207,9 +207,9 @@ var profC20 = &profile{
 	ops: weights(map[string]int{
 		kOpen: 5, kOpenConfirm: 4, kClose: 2, kLock: 26, kLocku: 8, kLockt: 6, kReleaseLockowner: 3,
 		kRead: 1, kWrite: 1, kOpenDowngrade: 1,
-		kSetclientid: 1, kSetclientidConfirm: 1, kRenew: 1, "advance": 2, "release": 2, "retx": 1,
+		kSetclientid: 1, kSetclientidConfirm: 1, kRenew: 1, "advance": 2, "release": 2, "retx": 1, "window": 1,
 	}),
-	minSteps: 20, maxSteps: 70, devPct: 8, parkPct: 5, warmPct: 95, warmOpen: true, confirmPct: 95, sharedLO: true, scanLocks: true,
+	minSteps: 20, maxSteps: 70, devPct: 8, parkPct: 5, gatePct: 30, warmPct: 95, warmOpen: true, confirmPct: 95, sharedLO: true, scanLocks: true,
 	nontrivial: func(ev, labels map[string]int) bool {
 		return ev["two_lock_owners_hold"] > 0 && ev["lock_split_or_merge"] > 0 && ev["lock_to_max_offset"] > 0
 	},
@@ -223,9 +223,9 @@ var profC14 = &profile{
 	ops: weights(map[string]int{
 		kOpen: 10, kOpenConfirm: 5, kOpenDowngrade: 3, kClose: 3, kLock: 8, kLocku: 2, kLockt: 4, kReleaseLockowner: 2,
 		kRead: 4, kWrite: 4, kSetattr: 3, kRemove: 2, kLookup: 1, kPutfh: 2,
-		kSetclientid: 2, kSetclientidConfirm: 3, kRenew: 1, "advance": 3, "vanish": 1, "release": 6, "retx": 3, "retx_diff_op": 1, "retx_diff_sid": 1,
+		kSetclientid: 2, kSetclientidConfirm: 3, kRenew: 1, "advance": 3, "vanish": 1, "release": 6, "retx": 3, "retx_diff_op": 1, "retx_diff_sid": 1, "window": 3,
 	}),
-	minSteps: 20, maxSteps: 70, devPct: 20, parkPct: 20, warmPct: 90, confirmPct: 85, sharedLO: true, faultPct: 55, inflightRetxPct: 50, dupParkedPct: 10,
+	minSteps: 20, maxSteps: 70, devPct: 20, parkPct: 20, gatePct: 40, warmPct: 90, confirmPct: 85, sharedLO: true, faultPct: 55, inflightRetxPct: 50, dupParkedPct: 10,
 	nontrivial: func(ev, labels map[string]int) bool {
 		faults := 0
 		for k, v := range ev {
@@ -248,7 +248,7 @@ func TestC18NFS40OpenAccounting(t *testing.T) {
 }
 
 func TestC19NFS40Retransmission(t *testing.T) {
-	rec := simkit.NewRecorder(t, "C19", "nfs40_retransmission", commonRule+"ORACLE (C19): a retransmission (same owner, same seqid, same operation type and - for CLOSE/LOCK(existing owner)/LOCKU/OPEN_CONFIRM/OPEN_DOWNGRADE - same state ID) returns a result that is XDR-byte-equal (go-xdr WriteTo) to the first reply of that operation, and leaf counters, directory change ID, VerifStateCounts and the opened-files pool do not move; a retransmission arriving while the original is parked blocks, then completes with the original's reply - also the second, third, ... identical duplicate waiting behind the same original (the bubble must drain); seqids wrap from 2^32-1 to 1 (0 is then out of order), a first seqid of 0 is accepted; a seqid that is neither the last nor its successor => NFS4ERR_BAD_SEQID without side effects; the last seqid with another operation type or another state ID => NFS4ERR_BAD_SEQID, never the cached reply. Excluded (counted): two OPENs under one seqid with different arguments as 'different content' (RFC 7530 9.1.9: same request). Excluded (counted): a waiter behind an in-progress transaction whose content differs from the waiters already there (service order would be up to the scheduler). NON-TRIVIAL: a replay of a successful OPEN, CLOSE or LOCK returned the cached reply AND a duplicate that arrived while its original was in flight completed with the original's reply (both before the final drain). Distinct by script hash.")
+	rec := simkit.NewRecorder(t, "C19", "nfs40_retransmission", commonRule+"ORACLE (C19): a retransmission (same owner, same seqid, same operation type and - for CLOSE/LOCK(existing owner)/LOCKU/OPEN_CONFIRM/OPEN_DOWNGRADE - same state ID) returns a result that is XDR-byte-equal (go-xdr WriteTo) to the first reply of that operation, and leaf counters, directory change ID, VerifStateCounts and the opened-files pool do not move; a retransmission arriving while the original is parked blocks, then completes with the original's reply - also the second, third, ... identical duplicate waiting behind the same original (the bubble must drain); seqids wrap from 2^32-1 to 1 (0 is then out of order), a first seqid of 0 is accepted; a seqid that is neither the last nor its successor => NFS4ERR_BAD_SEQID without side effects; the last seqid with another operation type or another state ID => NFS4ERR_BAD_SEQID, never the cached reply. Excluded (counted): two OPENs under one seqid with different arguments as 'different content' (RFC 7530 9.1.9: same request). A waiter behind an in-progress transaction whose content differs from the waiters that wake up on their own is held at the clock reading of enter() and let go by the harness (counted), because the service order would otherwise be up to the scheduler. NON-TRIVIAL: a replay of a successful OPEN, CLOSE or LOCK returned the cached reply AND a duplicate that arrived while its original was in flight completed with the original's reply (both before the final drain). Distinct by script hash.")
 	rapid.Check(t, func(rt *rapid.T) { runCase(t, rt, rec, profC19) })
 }
 
